@@ -15,6 +15,7 @@ from tools import vlib
 from tools.vlib import d2tok, tok2d
 import femmio, gen, fem_oracle
 from runner import Run
+from checks import C03
 
 
 def gen_problem(rng, t):
@@ -107,6 +108,14 @@ def main(argv):
                         ck.violation("getk-out-of-range", "GetK(%.6g) = %.6g lies outside the table's conductivity range" % (q, v),
                                      dict(table=list(zip(Ts, ks)), t=q, value=v))
                     break
+    # ---------- stage B: whole assembly
+    APROTO = {"consts", "problem", "np", "lp", "bp", "cp", "lab", "n", "e", "pbc", "run"}
+    mx = vlib.model_exe()
+    try:
+        ax = vlib.compile_harness("assemble_h_harness", build, ("hsolver", "femm", "luacomplex"))
+    except vlib.BuildError as e:
+        ck.obligation_broken("correspondence assemble_h_harness<->HSolver: " + str(e)[:400])
+        ax = None
     # ---------- stage P: whole problems
     work = vlib.workdir("C04")
     nprob = 20 if ck.tier == "quick" else 160
@@ -123,12 +132,43 @@ def main(argv):
             if run.mesh() != 0:
                 ck.violation("mesher-failed", "fmesher failed on a generated problem: " + run.mesh_out[-300:], dict(files=run.files()))
                 continue
+            # ---- stage B: the system of the first pass (previous iterate zero) as the real assembly builds it vs Model/HSolver.lean
+            if ax:
+                dump = os.path.join(run.dir, "sys_harness.txt")
+                env = dict(os.environ, XFEMM_VERIF_DUMPSYS=dump)
+                try:
+                    r = subprocess.run([ax, run.base], stdout=subprocess.PIPE, stderr=subprocess.PIPE, text=True, env=env, timeout=600)
+                    proto = [l for l in r.stdout.splitlines() if l.split() and l.split()[0] in APROTO]
+                    if r.returncode != 0 or not os.path.exists(dump) or not proto:
+                        ck.violation("assembly-crash", "the real HSolver (in-process) failed on a generated problem (rc=%d): %s %s" % (r.returncode, r.stdout[-200:], r.stderr[-300:]),
+                                     dict(files=run.files()))
+                    else:
+                        m = subprocess.run([mx, "assemble-h"], input="\n".join(proto) + "\n", stdout=subprocess.PIPE, text=True, timeout=600)
+                        d = C03.compare_systems(open(dump).read().splitlines(), m.stdout.splitlines())
+                        stats["systems_compared"] = stats.get("systems_compared", 0) + 1
+                        stats["entries_compared"] = stats.get("entries_compared", 0) + sum(1 for l in m.stdout.splitlines() if l.startswith("E "))
+                        if d:
+                            ck.obligation_broken("correspondence assemble-h: HSolver::AnalyzeProblem (first pass) vs Model/HSolver.lean (%s)" % d["what"],
+                                                 dict(first_difference=d, files=run.files()))
+                except subprocess.TimeoutExpired:
+                    ck.violation("assembly-timeout", "the real HSolver (in-process) did not finish within 600 s", dict(files=run.files()))
+                run.restore_mesh()
             slog = os.path.join(run.dir, "solve.log")
             rc = run.solve(env=dict(os.environ, XFEMM_VERIF_SOLVELOG=slog))
             if rc != 0 or not os.path.exists(run.solution_path()):
                 ck.violation("solver-failed", "hsolver failed (rc=%s) on a well-formed generated problem: %s" % (rc, run.solve_out[-300:]),
                              dict(files=run.files()))
                 continue
+            # radiation runaway (known finding): with sources far beyond what the geometry can shed, the linearised T^4 term drives
+            # the Picard iterates to negative absolute temperatures, the systems become indefinite and the loop stagnates at a
+            # non-solution that is written with exit status 0
+            if "radiation" in p.features:
+                Tq = [n[2] for n in femmio.read_solution(run.solution_path(), "h")["nodes"]]
+                if min(Tq) < 0 or max(Tq) > 1e4:
+                    stats["radiation_runaway"] = stats.get("radiation_runaway", 0) + 1
+                    ck.violation("radiation-runaway", "radiation boundary with extreme sources (%s, %s): hsolver exits 0 with temperatures between %.4g and %.4g K"
+                                 % (p.units, p.ptype, min(Tq), max(Tq)), dict(files=run.files()))
+                    continue
             if os.path.exists(slog):
                 for l in open(slog):
                     mres = [x for x in l.split() if x.startswith("relres=")]
